@@ -1,8 +1,11 @@
 package main
 
-// Syntactic effect inference over the static call graph: heap keys written, locks touched.
+// Effect inference: heap keys written and locks touched by each function, over a call graph in which
+// interface calls and calls through function values are resolved by class-hierarchy analysis over the
+// loaded packages (code outside them cannot write their unexported state).
 
 import (
+	"fmt"
 	"go/ast"
 	"go/token"
 	"go/types"
@@ -18,26 +21,225 @@ type Effects struct {
 
 func newEffects() *Effects { return &Effects{Writes: map[string]bool{}, Locks: map[string]bool{}} }
 
-func (e *Effects) merge(o *Effects) {
+func (e *Effects) merge(o *Effects) bool {
 	if o == nil {
-		return
+		return false
 	}
+	ch := false
 	for k := range o.Writes {
-		e.Writes[k] = true
+		if !e.Writes[k] {
+			e.Writes[k] = true
+			ch = true
+		}
 	}
 	for k := range o.Locks {
-		e.Locks[k] = true
+		if !e.Locks[k] {
+			e.Locks[k] = true
+			ch = true
+		}
 	}
 	if o.Unknown && !e.Unknown {
 		e.Unknown = true
 		e.Why = o.Why
+		ch = true
 	}
+	return ch
 }
 
-var purePkgs = map[string]bool{
-	"fmt": true, "errors": true, "strings": true, "bytes": true, "math": true, "strconv": true, "unicode/utf8": true,
-	"math/bits": true, "time": true, "os": false, "sort": false, "reflect": true, "unicode": true, "math/rand": true,
-	"github.com/syndtr/goleveldb/leveldb/errors": true, "path/filepath": true, "hash/crc32": true, "runtime": true,
+type cgNode struct {
+	name    string
+	fi      *FuncInfo
+	lit     *ast.FuncLit
+	info    *types.Info
+	sig     *types.Signature
+	direct  *Effects
+	callees map[*cgNode]bool
+	eff     *Effects
+	dyn     []dynCall
+}
+
+type dynCall struct {
+	method string
+	sig    *types.Signature
+	recvT  types.Type
+}
+
+type callGraph struct {
+	byFunc   map[*types.Func]*cgNode
+	byLit    map[*ast.FuncLit]*cgNode
+	nodes    []*cgNode
+	values   []*cgNode // functions and literals used as values
+	byMethod map[string][]*cgNode
+}
+
+func (w *World) graph() *callGraph {
+	if w.cg != nil {
+		return w.cg
+	}
+	g := &callGraph{byFunc: map[*types.Func]*cgNode{}, byLit: map[*ast.FuncLit]*cgNode{}, byMethod: map[string][]*cgNode{}}
+	w.cg = g
+	for _, fi := range w.Funcs {
+		if fi.Obj == nil {
+			continue
+		}
+		n := &cgNode{name: fi.Key, fi: fi, info: fi.Pkg.TypesInfo, sig: fi.Obj.Type().(*types.Signature), callees: map[*cgNode]bool{}}
+		g.byFunc[fi.Obj] = n
+		g.nodes = append(g.nodes, n)
+		if n.sig.Recv() != nil {
+			g.byMethod[fi.Obj.Name()] = append(g.byMethod[fi.Obj.Name()], n)
+		}
+	}
+	// literals
+	for _, fi := range w.Funcs {
+		info := fi.Pkg.TypesInfo
+		fi := fi
+		// literals invoked on the spot (f := func(){}(), defer func(){}(), go func(){}()) are not values
+		immediate := map[*ast.FuncLit]bool{}
+		ast.Inspect(fi.Decl.Body, func(x ast.Node) bool {
+			if call, ok := x.(*ast.CallExpr); ok {
+				if lit, ok := stripParens(call.Fun).(*ast.FuncLit); ok {
+					immediate[lit] = true
+				}
+			}
+			return true
+		})
+		ast.Inspect(fi.Decl.Body, func(x ast.Node) bool {
+			if lit, ok := x.(*ast.FuncLit); ok {
+				sig, _ := info.TypeOf(lit).(*types.Signature)
+				n := &cgNode{name: fmt.Sprintf("%s$lit%d", fi.Key, fi.Pkg.Fset.Position(lit.Pos()).Line), lit: lit, info: info, sig: sig, callees: map[*cgNode]bool{}}
+				g.byLit[lit] = n
+				g.nodes = append(g.nodes, n)
+				if !immediate[lit] {
+					g.values = append(g.values, n)
+				}
+			}
+			return true
+		})
+	}
+	// named functions used as values
+	for _, fi := range w.Funcs {
+		info := fi.Pkg.TypesInfo
+		called := map[ast.Expr]bool{}
+		ast.Inspect(fi.Decl.Body, func(x ast.Node) bool {
+			if call, ok := x.(*ast.CallExpr); ok {
+				called[stripParens(call.Fun)] = true
+			}
+			return true
+		})
+		selIdents := map[*ast.Ident]bool{}
+		ast.Inspect(fi.Decl.Body, func(x ast.Node) bool {
+			if sx, ok := x.(*ast.SelectorExpr); ok {
+				selIdents[sx.Sel] = true
+			}
+			return true
+		})
+		ast.Inspect(fi.Decl.Body, func(x ast.Node) bool {
+			var fn *types.Func
+			switch y := x.(type) {
+			case *ast.Ident:
+				if called[y] || selIdents[y] {
+					return true
+				}
+				fn, _ = info.Uses[y].(*types.Func)
+			case *ast.SelectorExpr:
+				if called[y] {
+					return true
+				}
+				if sel := info.Selections[y]; sel != nil {
+					fn, _ = sel.Obj().(*types.Func)
+				} else {
+					fn, _ = info.Uses[y.Sel].(*types.Func)
+				}
+				if fn != nil {
+					if n := g.byFunc[fn]; n != nil {
+						g.values = append(g.values, n)
+					}
+				}
+				return true
+			}
+			if fn != nil {
+				if n := g.byFunc[fn]; n != nil {
+					g.values = append(g.values, n)
+				}
+			}
+			return true
+		})
+	}
+	// direct effects and edges
+	for _, n := range g.nodes {
+		n := n
+		var body ast.Node
+		if n.fi != nil {
+			body = n.fi.Decl.Body
+		} else {
+			body = n.lit.Body
+		}
+		n.direct = newEffects()
+		w.scanDirect(n.info, body, n.direct, func(c *cgNode) { n.callees[c] = true }, func(d dynCall) { n.dyn = append(n.dyn, d) }, n.lit)
+	}
+	for _, n := range g.nodes {
+		for _, d := range n.dyn {
+			for _, t := range w.resolveDyn(d) {
+				n.callees[t] = true
+			}
+		}
+	}
+	// fixpoint
+	for _, n := range g.nodes {
+		n.eff = newEffects()
+		n.eff.merge(n.direct)
+	}
+	for changed := true; changed; {
+		changed = false
+		for _, n := range g.nodes {
+			for c := range n.callees {
+				if n.eff.merge(c.eff) {
+					changed = true
+				}
+			}
+		}
+	}
+	return g
+}
+
+func sameSig(a, b *types.Signature) bool {
+	if a == nil || b == nil {
+		return false
+	}
+	return types.Identical(a.Params(), b.Params()) && types.Identical(a.Results(), b.Results()) && a.Variadic() == b.Variadic()
+}
+
+func (w *World) resolveDyn(d dynCall) []*cgNode {
+	g := w.cg
+	var out []*cgNode
+	if d.method != "" {
+		var it *types.Interface
+		if d.recvT != nil {
+			it, _ = d.recvT.Underlying().(*types.Interface)
+		}
+		for _, n := range g.byMethod[d.method] {
+			if !sameSig(n.sig, d.sig) {
+				continue
+			}
+			if it != nil {
+				rt := n.sig.Recv().Type()
+				if !w.mayBeBehind(rt, it) {
+					if p, ok := rt.(*types.Pointer); !ok || !w.mayBeBehind(p.Elem(), it) {
+						_ = p
+						continue
+					}
+				}
+			}
+			out = append(out, n)
+		}
+		return out
+	}
+	for _, n := range g.values {
+		if sameSig(n.sig, d.sig) {
+			out = append(out, n)
+		}
+	}
+	return out
 }
 
 func (w *World) isPure(fn *types.Func) bool {
@@ -51,51 +253,66 @@ func (w *World) isPure(fn *types.Func) bool {
 		eff := w.effectsOf(fn)
 		return eff != nil && !eff.Unknown && len(eff.Writes) == 0 && len(eff.Locks) == 0
 	}
-	p := fn.Pkg().Path()
-	if purePkgs[p] {
-		return true
-	}
-	full := fn.FullName()
-	switch {
-	case full == "sort.Search", full == "sort.SearchInts", strings.HasPrefix(full, "(encoding/binary.littleEndian).Uint"),
-		full == "encoding/binary.Uvarint", full == "encoding/binary.Varint", full == "(error).Error",
-		strings.HasPrefix(full, "(*sync.WaitGroup)"), strings.HasPrefix(full, "(*sync.Cond)"):
-		return true
-	}
+	// code outside the loaded packages cannot write their unexported state; what it does to memory handed to it
+	// is described by the library models and the assumed contracts
 	return false
 }
 
 func (w *World) effectsOf(fn *types.Func) *Effects {
-	if w.effMemo == nil {
-		w.effMemo = map[*types.Func]*Effects{}
-		w.effBusy = map[*types.Func]bool{}
+	g := w.graph()
+	if n := g.byFunc[fn]; n != nil {
+		return n.eff
 	}
-	if e, ok := w.effMemo[fn]; ok {
-		return e
+	return nil
+}
+
+// effectsOfCall: effects of calling fn (possibly an interface method or external function).
+func (w *World) effectsOfCall(info *types.Info, call *ast.CallExpr) *Effects {
+	w.graph()
+	eff := newEffects()
+	w.callEffects(info, call, eff, func(c *cgNode) { eff.merge(c.eff) }, func(d dynCall) {
+		for _, t := range w.resolveDyn(d) {
+			eff.merge(t.eff)
+		}
+	})
+	// closures passed as arguments may be run by the callee
+	for _, a := range call.Args {
+		if lit, ok := stripParens(a).(*ast.FuncLit); ok {
+			if n := w.cg.byLit[lit]; n != nil {
+				eff.merge(n.eff)
+			}
+		}
 	}
-	fi := w.ByObj[fn]
-	if fi == nil {
-		return nil
-	}
-	if w.effBusy[fn] {
-		return newEffects() // recursion: fixpoint approximated by the other members of the cycle
-	}
-	w.effBusy[fn] = true
-	saved := w.skipTerminating
-	w.skipTerminating = nil
-	eff := w.scanEffects(fi.Pkg.TypesInfo, fi.Decl.Body)
-	w.skipTerminating = saved
-	delete(w.effBusy, fn)
-	w.effMemo[fn] = eff
 	return eff
 }
 
-// bodyWrites: effects of a loop body on paths that can reach the back edge (blocks that end in
-// return/panic and contain no continue are skipped).
+// bodyWrites: effects of a loop body on paths that can reach the back edge.
 func (w *World) bodyWrites(e *Env, body *ast.BlockStmt) *Effects {
 	w.skipTerminating = body
 	defer func() { w.skipTerminating = nil }()
 	return w.scanEffects(e.Info, body)
+}
+
+// scanEffects: effects of a piece of code including everything it may call.
+func (w *World) scanEffects(info *types.Info, body ast.Node) *Effects {
+	w.graph()
+	eff := newEffects()
+	if body == nil {
+		return eff
+	}
+	w.scanDirect(info, body, eff, func(c *cgNode) {
+		if !w.noCalleeEffects {
+			eff.merge(c.eff)
+		}
+	}, func(d dynCall) {
+		if w.noCalleeEffects {
+			return
+		}
+		for _, t := range w.resolveDyn(d) {
+			eff.merge(t.eff)
+		}
+	}, nil)
+	return eff
 }
 
 func blockTerminates(x *ast.BlockStmt) bool {
@@ -176,7 +393,6 @@ func rootIsHeap(info *types.Info, x ast.Expr) bool {
 			if _, isPtr := sel.Recv().Underlying().(*types.Pointer); isPtr {
 				return true
 			}
-			// embedded pointer on the path?
 			curT := sel.Recv()
 			for _, fi := range sel.Index()[:len(sel.Index())-1] {
 				s := structOf(curT)
@@ -203,17 +419,11 @@ func rootIsHeap(info *types.Info, x ast.Expr) bool {
 	return true
 }
 
-func (w *World) scanEffects(info *types.Info, body ast.Node) *Effects {
-	eff := newEffects()
-	if body == nil {
-		return eff
-	}
-	unknown := func(why string) {
-		if !eff.Unknown {
-			eff.Unknown = true
-			eff.Why = why
-		}
-	}
+// scanDirect collects the effects written directly in body, reports static callees and dynamic call sites.
+// Nested function literals are separate nodes: they are reported as callees (conservatively: the enclosing
+// code may run them), except `self` (the literal being scanned).
+func (w *World) scanDirect(info *types.Info, body ast.Node, eff *Effects, callee func(*cgNode), dyn func(dynCall), self *ast.FuncLit) {
+	g := w.cg
 	lhs := func(x ast.Expr) {
 		x = stripParens(x)
 		switch y := x.(type) {
@@ -222,9 +432,14 @@ func (w *World) scanEffects(info *types.Info, body ast.Node) *Effects {
 				eff.Writes["V$"+v.Pkg().Name()+"."+v.Name()] = true
 			}
 		case *ast.SelectorExpr:
-			if key, _, _ := fieldKeyOf(info, y); key != "" {
+			if key, _, ft := fieldKeyOf(info, y); key != "" {
 				if rootIsHeap(info, y) {
 					eff.Writes[key] = true
+					if ft != nil {
+						if _, isStruct := ft.Underlying().(*types.Struct); isStruct {
+							eff.Writes["F$"+structKey(ft)] = true
+						}
+					}
 				}
 			} else if v, ok := info.Uses[y.Sel].(*types.Var); ok && v.Pkg() != nil {
 				eff.Writes["V$"+v.Pkg().Name()+"."+v.Name()] = true
@@ -240,8 +455,6 @@ func (w *World) scanEffects(info *types.Info, body ast.Node) *Effects {
 				if a, ok := u.Elem().Underlying().(*types.Array); ok {
 					eff.Writes["M$"+typeKey(a.Elem())] = true
 				}
-			case *types.Map:
-				// maps are opaque
 			}
 		case *ast.StarExpr:
 			t := info.TypeOf(y.X)
@@ -257,6 +470,16 @@ func (w *World) scanEffects(info *types.Info, body ast.Node) *Effects {
 	skipRoot := w.skipTerminating
 	ast.Inspect(body, func(n ast.Node) bool {
 		switch x := n.(type) {
+		case *ast.FuncLit:
+			if x == self {
+				return true
+			}
+			if g != nil {
+				if ln := g.byLit[x]; ln != nil {
+					callee(ln)
+				}
+			}
+			return false
 		case *ast.BlockStmt:
 			if skipRoot != nil && x != skipRoot && blockTerminates(x) {
 				return false
@@ -285,7 +508,6 @@ func (w *World) scanEffects(info *types.Info, body ast.Node) *Effects {
 				w.chanEffect(info, x.X, eff)
 			}
 			if x.Op == token.AND {
-				// address of a local escapes: writes through it are not tracked per variable; boxed locals use P$ keys
 				if id, ok := stripParens(x.X).(*ast.Ident); ok {
 					if v, ok := info.Uses[id].(*types.Var); ok {
 						if _, isStruct := v.Type().Underlying().(*types.Struct); !isStruct {
@@ -295,14 +517,12 @@ func (w *World) scanEffects(info *types.Info, body ast.Node) *Effects {
 				}
 			}
 		case *ast.GoStmt:
-			// another thread
-			return false
+			return false // another thread
 		case *ast.CallExpr:
-			w.callEffects(info, x, eff, unknown)
+			w.callEffects(info, x, eff, callee, dyn)
 		}
 		return true
 	})
-	return eff
 }
 
 func (w *World) chanEffect(info *types.Info, ch ast.Expr, eff *Effects) {
@@ -323,9 +543,22 @@ func (w *World) chanEffect(info *types.Info, ch ast.Expr, eff *Effects) {
 			eff.Locks["E$"+name+"$recv"] = true
 		}
 	}
+	for _, d := range w.Specs.Decls {
+		if d.Kind == "handoff" {
+			f := strings.Fields(d.Text)
+			if len(f) >= 2 && (f[0] == name || d.PkgName+"."+f[0] == name) {
+				lk := f[1]
+				if strings.Count(lk, ".") == 1 {
+					lk = d.PkgName + "." + lk
+				}
+				eff.Locks["L$"+lk] = true
+			}
+		}
+	}
 }
 
-func (w *World) callEffects(info *types.Info, call *ast.CallExpr, eff *Effects, unknown func(string)) {
+func (w *World) callEffects(info *types.Info, call *ast.CallExpr, eff *Effects, callee func(*cgNode), dyn func(dynCall)) {
+	g := w.cg
 	if tv, ok := info.Types[call.Fun]; ok && tv.IsType() {
 		return
 	}
@@ -333,6 +566,14 @@ func (w *World) callEffects(info *types.Info, call *ast.CallExpr, eff *Effects, 
 	var fn *types.Func
 	var recvIface bool
 	var recvExpr ast.Expr
+	var recvT types.Type
+	dynSig := func() {
+		if t := info.TypeOf(call.Fun); t != nil {
+			if sig, ok := t.Underlying().(*types.Signature); ok {
+				dyn(dynCall{sig: sig})
+			}
+		}
+	}
 	switch f := fun.(type) {
 	case *ast.Ident:
 		switch o := info.Uses[f].(type) {
@@ -348,17 +589,7 @@ func (w *World) callEffects(info *types.Info, call *ast.CallExpr, eff *Effects, 
 		case *types.Func:
 			fn = o
 		case *types.Var:
-			// closure variable: its literal (if any) is scanned as part of the body
-			if _, isSig := o.Type().Underlying().(*types.Signature); isSig {
-				if o.Parent() != nil && o.Pkg() != nil && o.Parent() != o.Pkg().Scope() {
-					// local func value: if it is a parameter or field, unknown
-					if o.IsField() {
-						unknown("call through func field " + o.Name())
-					}
-					// locals holding literals are covered by scanning the literal; parameters are unknown
-					unknown("call through func value " + o.Name())
-				}
-			}
+			dynSig()
 			return
 		default:
 			return
@@ -369,8 +600,9 @@ func (w *World) callEffects(info *types.Info, call *ast.CallExpr, eff *Effects, 
 				fn = sel.Obj().(*types.Func)
 				_, recvIface = sel.Recv().Underlying().(*types.Interface)
 				recvExpr = f.X
+				recvT = sel.Recv()
 			} else {
-				unknown("call through func field " + f.Sel.Name)
+				dynSig()
 				return
 			}
 		} else if o, ok := info.Uses[f.Sel].(*types.Func); ok {
@@ -379,9 +611,9 @@ func (w *World) callEffects(info *types.Info, call *ast.CallExpr, eff *Effects, 
 			return
 		}
 	case *ast.FuncLit:
-		return // body scanned in place
+		return // reported as a nested literal
 	default:
-		unknown("dynamic call")
+		dynSig()
 		return
 	}
 	full := fn.FullName()
@@ -412,55 +644,110 @@ func (w *World) callEffects(info *types.Info, call *ast.CallExpr, eff *Effects, 
 					}
 				}
 			}
-			unknown("atomic on unknown target")
+			eff.Writes["P$int32"] = true
+			eff.Writes["P$int64"] = true
+			eff.Writes["P$uint32"] = true
+			eff.Writes["P$uint64"] = true
 		}
 		return
 	}
-	if strings.HasPrefix(full, "(encoding/binary.littleEndian).Put") || strings.HasPrefix(full, "encoding/binary.Put") {
+	if strings.HasPrefix(full, "(encoding/binary.littleEndian).Put") || strings.HasPrefix(full, "encoding/binary.Put") ||
+		full == "io.ReadFull" || full == "io.ReadAtLeast" || strings.HasPrefix(full, "github.com/golang/snappy.") {
 		eff.Writes["M$uint8"] = true
+		if full == "io.ReadFull" || full == "io.ReadAtLeast" {
+			if len(call.Args) > 0 {
+				// the reader argument is an interface value: its Read may be ours
+				dyn(dynCall{method: "Read", sig: readSig})
+			}
+		}
 		return
 	}
 	if recvIface {
-		if n := namedOf(fn.Type().(*types.Signature).Recv().Type()); n != nil && n.Obj().Pkg() != nil {
+		if n := namedOf(recvT); n != nil && n.Obj().Pkg() != nil {
 			key := "iface:" + n.Obj().Pkg().Name() + "." + n.Obj().Name() + "." + fn.Name()
 			if ct := w.Specs.ByKey[key]; ct != nil {
-				if ct.Flags["pure"] != "" {
-					return
-				}
 				if wr := ct.Flags["effects"]; wr != "" {
 					for _, k := range strings.Fields(wr) {
 						eff.Writes[k] = true
 					}
-					return
 				}
 			}
 		}
-		if w.isPure(fn) {
-			return
+		// io.Reader / io.ReaderAt style interfaces fill caller memory
+		switch fn.Name() {
+		case "Read", "ReadAt", "ReadByte", "ReadFull":
+			eff.Writes["M$uint8"] = true
 		}
-		unknown("interface call " + full)
+		dyn(dynCall{method: fn.Name(), sig: fn.Type().(*types.Signature), recvT: recvT})
 		return
 	}
-	if fi := w.ByObj[fn]; fi != nil {
-		if ct := w.Specs.ByKey[fi.Key]; ct != nil && ct.Flags["pure"] != "" {
+	if g != nil {
+		if n := g.byFunc[fn]; n != nil {
+			callee(n)
 			return
 		}
-		eff.merge(w.effectsOf(fn))
-		return
-	}
-	if w.isPure(fn) {
-		return
 	}
 	if ct := w.Specs.ByKey["iface:"+extKey(fn)]; ct != nil {
-		if ct.Flags["pure"] != "" {
-			return
-		}
 		if wr := ct.Flags["effects"]; wr != "" {
 			for _, k := range strings.Fields(wr) {
 				eff.Writes[k] = true
 			}
-			return
 		}
 	}
-	unknown("external call " + full)
+	// other external code: may call back through function-typed or interface-typed arguments
+	for _, a := range call.Args {
+		t := info.TypeOf(a)
+		if t == nil {
+			continue
+		}
+		if sig, ok := t.Underlying().(*types.Signature); ok {
+			if _, isLit := stripParens(a).(*ast.FuncLit); !isLit {
+				dyn(dynCall{sig: sig})
+			}
+		}
+		if it, ok := t.Underlying().(*types.Interface); ok {
+			for i := 0; i < it.NumMethods(); i++ {
+				m := it.Method(i)
+				dyn(dynCall{method: m.Name(), sig: m.Type().(*types.Signature)})
+			}
+		}
+	}
+}
+
+var readSig = func() *types.Signature {
+	bs := types.NewSlice(types.Typ[types.Uint8])
+	errT := types.Universe.Lookup("error").Type()
+	return types.NewSignatureType(nil, nil, nil,
+		types.NewTuple(types.NewVar(token.NoPos, nil, "p", bs)),
+		types.NewTuple(types.NewVar(token.NoPos, nil, "n", types.Typ[types.Int]), types.NewVar(token.NoPos, nil, "err", errT)), false)
+}()
+
+// callsTouching: does the body call a function whose contract changes lock state (touches)?
+func (w *World) callsTouching(fi *FuncInfo) bool {
+	found := false
+	info := fi.Pkg.TypesInfo
+	ast.Inspect(fi.Decl.Body, func(n ast.Node) bool {
+		call, ok := n.(*ast.CallExpr)
+		if !ok || found {
+			return !found
+		}
+		var fn *types.Func
+		switch f := stripParens(call.Fun).(type) {
+		case *ast.Ident:
+			fn, _ = info.Uses[f].(*types.Func)
+		case *ast.SelectorExpr:
+			if sel := info.Selections[f]; sel != nil {
+				fn, _ = sel.Obj().(*types.Func)
+			} else {
+				fn, _ = info.Uses[f.Sel].(*types.Func)
+			}
+		}
+		if fn != nil {
+			if cf := w.ByObj[fn]; cf != nil && hasTouches(w.Specs.ByKey[cf.Key]) {
+				found = true
+			}
+		}
+		return !found
+	})
+	return found
 }
